@@ -9,7 +9,7 @@ TRUSTED_BASE = [
     "Coq 8.16.1 kernel incl. vm_compute (no native_compute)",
     "translators tools/gen_tables.py, gen_grammar.py, gen_consts.py, gen_census.py (regenerate coq/gen/*.v from /repo on every run: "
     "flex tables + rule actions, bison LALR tables + semantic actions (classified by their text), constants, clang-AST censuses)",
-    "hand transcriptions of generated skeleton code: FlexEngine.v (flex matching loop) and LalrEngine.v (bison yyparse control flow)",
+    "hand transcriptions of generated skeleton code: FlexEngine.v (flex matching loop), FlexBuf.v (flex buffer refill) and LalrEngine.v (bison yyparse control flow); the C text they were made from is compared token for token with /repo on every run (tools/skel_ref/*.json), the faithfulness of the transcription itself is trusted and exercised by the correspondence runs",
     "extraction: ExtrOcamlBasic only (bool/option/unit/list/prod/sumbool/sumor + andb/orb inlined); "
     "no Extract Constant of our own; OCaml 4.13.1; harness/model_driver.ml (bytes<->Z glue)",
     "correspondence harness harness/drv.c, drvxx.cc, thr.c, memdrv.c built from /repo/lib (gcc/g++, ASan+UBSan / TSan / plain) and pygen/*.py",
